@@ -280,17 +280,17 @@ func Check(w *symex.World, plan *Plan, opt Options) int {
 			"assertions_by_constant_folding": triv,
 			"assertions_by_solver":           assertsSMT,
 			"assertion_labels_reached":       reached,
-			"solver":                         map[string]interface{}{"backend": solverName(opt), "queries": queries, "sat": sat, "unsat": unsat, "unknown": unk, "time_s": solverT.Seconds(), "per_query_timeout_ms": opt.TimeoutMs,
+			"solver": map[string]interface{}{"backend": solverName(opt), "queries": queries, "sat": sat, "unsat": unsat, "unknown": unk, "time_s": solverT.Seconds(), "per_query_timeout_ms": opt.TimeoutMs,
 				"escalated_one_shot_runs": oneShotQ, "escalated_decided": oneShotD, "escalated_time_s": oneShotT.Seconds(), "escalation_portfolio": "fresh z3 4.8.12, z3 5.1 (z3-new), cvc5 1.0 on the complete script", "escalation_timeout_ms": opt.OneShotMs},
-			"native_replays":                 map[string]int{"run": replayed, "reproduced": reproduced},
-			"cross_validation":               map[string]int{"native_runs_compared_with_concrete_interpretation": xv.runs, "agree": xv.agree},
-			"known_findings_printed":         sortedKeysB(knownPrinted),
-			"inconclusive":                   incon,
-			"bounds":                         plan.Bounds,
-			"outside_the_claim":              plan.Outside,
-			"functions_encoded":              w.FunctionsEncoded(funcs),
-			"stubs_and_native_calls":         stubs,
-			"explanation":                    plan.Explanation,
+			"native_replays":         map[string]int{"run": replayed, "reproduced": reproduced},
+			"cross_validation":       map[string]int{"native_runs_compared_with_concrete_interpretation": xv.runs, "agree": xv.agree},
+			"known_findings_printed": sortedKeysB(knownPrinted),
+			"inconclusive":           incon,
+			"bounds":                 plan.Bounds,
+			"outside_the_claim":      plan.Outside,
+			"functions_encoded":      w.FunctionsEncoded(funcs),
+			"stubs_and_native_calls": stubs,
+			"explanation":            plan.Explanation,
 		},
 	}
 	os.MkdirAll(filepath.Join(opt.VerifDir, "evidence"), 0o755)
